@@ -475,15 +475,29 @@ func BuildFrom(query *Query, tableExpr *sqlparser.TableExpr) error {
 
 func BuildJoin(query *Query, joinExpr *sqlparser.JoinTableExpr) error {
 	left := CopyQuery(query)
+	pending := len(left.postProcessors)
 	err := BuildFrom(left, &joinExpr.LeftExpr)
 	if err != nil {
 		return err
 	}
+	// what an operand left pending (the async calls of a derived table and
+	// their post-processors) is awaited and run by the joining query
+	adopt := func(operand *Query, pending int) {
+		query.postProcessors = append(query.postProcessors, operand.postProcessors[pending:]...)
+		query.wg.Add(1)
+		go func() {
+			operand.wg.Wait()
+			query.wg.Done()
+		}()
+	}
+	adopt(left, pending)
 	right := CopyQuery(query)
+	pending = len(right.postProcessors)
 	err = BuildFrom(right, &joinExpr.RightExpr)
 	if err != nil {
 		return err
 	}
+	adopt(right, pending)
 	if joinExpr.Condition.On == nil {
 		expr := new(sqlparser.AndExpr)
 		expr.Left = sqlparser.BoolVal(true)
